@@ -9,6 +9,7 @@ they do with a real socket; ``close()`` from another greenlet throws EBADF into
 a blocked reader like gevent's cancel_wait does.
 """
 import errno
+import sys
 import socket as _real_socket
 
 import gevent
@@ -309,10 +310,20 @@ class SimSocket(object):
     if f is not None:
       mode = {'refuse': 'refuse', 'silence': 'blackhole', 'error': 'error', 'eof': 'refuse'}[f.kind]
     t0 = env.now
+    # who asked for this connection: a reconnection attempt of a resurrector, or the request path
+    # (a pool growing, a transport re-establishing itself, the first open)
+    origin, g_, hops = 'traffic', gevent.getcurrent(), 0
+    while g_ is not None and hops < 12:      # the greenlet itself and the greenlets that spawned it
+      if getattr(getattr(g_, '_run', None), '__name__', '') == '_TryResurrect':
+        origin = 'resurrector'
+        break
+      ref = getattr(g_, 'spawning_greenlet', None)
+      g_ = ref() if ref is not None else None
+      hops += 1
     if mode == 'blackhole':
       # SYNs are dropped; the kernel retransmits after 1,2,4,... seconds and
       # gives up with ETIMEDOUT (Linux default: 6 retries = 127 s)
-      att = [t0, 'blackhole', None]
+      att = [t0, 'blackhole', None, origin]
       srv.connect_attempts.append(att)
       waited, step, mode = 0.0, 1.0, None
       while waited < srv.syn_timeout:
@@ -338,11 +349,11 @@ class SimSocket(object):
     if f is None:
       mode = srv.mode if srv.mode != 'blackhole' else 'refuse'
     if mode == 'refuse':
-      srv.connect_attempts.append([t0, 'refused', env.now])
+      srv.connect_attempts.append([t0, 'refused', env.now, origin])
       env.emit('net.connect.end', ep=srv.ep, result='refused')
       raise _oserr(errno.ECONNREFUSED)
     if mode == 'error':
-      srv.connect_attempts.append([t0, 'error', env.now])
+      srv.connect_attempts.append([t0, 'error', env.now, origin])
       env.emit('net.connect.end', ep=srv.ep, result='error')
       raise _oserr(f.err)
     conn = Conn(self.net, srv, len(srv.conns))
@@ -350,7 +361,7 @@ class SimSocket(object):
     srv.conns.append(conn)
     self.net.all_conns.append(conn)
     self.conn = conn
-    srv.connect_attempts.append([t0, 'ok', env.now])
+    srv.connect_attempts.append([t0, 'ok', env.now, origin])
     conn.handler = srv.handler_factory(conn) if srv.handler_factory else None
     env.emit('net.connect.end', ep=srv.ep, result='ok', conn=conn.id)
 
